@@ -914,3 +914,11 @@ MP("c11-period-unit-honoured-by-one-builder", "C11", "C11.LIMITS", "C11-k3/patch
 MP("c12-publication-task-dropped", "C12", "C12.NOTIFY", "C12-k3/patch.diff")
 MP("c15-callback-removed-while-walked", "C15", "C15.ONCE", "C15-k1/patch.diff")
 MP("c19-file-name-normalised-before-matching", "C19", "C19.FRAME", "C19-k3/patch.diff")
+RP("c09-flush-wait-named-local-constant", "C09", "evolutions8/E30_refactor_4.diff")
+RP("c14-timer-read-into-local-before-stop", "C14", "evolutions8/E30_refactor_5.diff")
+RP("c07-table-bound-to-local-before-store", "C07", "evolutions8/E31_refactor_3.diff")
+RP("c02-node-value-keyword-arguments", "C02", "evolutions8/E31_refactor_5.diff")
+RP("c05-budget-answer-named-before-test", "C05", "evolutions8/E31_refactor_1.diff")
+RP("c07-unwrap-of-locals-in-helper-with-not-in-guard", "C07", "evolutions8/E31_refactor_6.diff")
+RP("c16-formatter-classes-at-module-level", "C16", "evolutions8/E32_refactor_1.diff")
+RP("c16-prefix-constant-concatenated", "C16", "evolutions8/E32_refactor_2.diff")
